@@ -1,5 +1,5 @@
 """C12 — a crash at any storage step leaves a recoverable database (one clause: snapshot, rollback, relay replacement are all-or-nothing)."""
-import time
+import re, time
 import z3
 
 from vlib.common import Result
@@ -83,6 +83,18 @@ def o1(tier):
     for rel, fn in TARGETS:
         r.cases += atomicity(rel, fn, sol, r)
         r.functions.append(f'mdk_sqlite_storage::{fn} (SQL program)')
+    # the all-or-nothing argument rests on SQLite's rollback journal / WAL being on disk and synced: configuration-level contract
+    for rel in ('lib.rs', 'encryption.rs', 'db.rs'):
+        for lit in S.all_sql_literals(rel):
+            for m in re.finditer(r'PRAGMA\s+(\w+)\s*=\s*([\w"\']+)', lit, re.I):
+                k, v = m.group(1).lower(), m.group(2).strip('"\'').upper()
+                r.cases += 1
+                if k == 'journal_mode' and v in ('MEMORY', 'OFF'):
+                    r.fail('O1/journal-mode', f'{rel}: PRAGMA journal_mode = {v}: the rollback journal is not on disk, a crash inside a transaction leaves a torn database (atomic commit is lost)')
+                if k == 'synchronous' and v in ('OFF', '0'):
+                    r.fail('O1/synchronous-off', f'{rel}: PRAGMA synchronous = {v}: committed transactions may be lost or torn on power failure')
+                if k == 'foreign_keys' and v in ('OFF', '0'):
+                    r.fail('O1/foreign-keys-off', f'{rel}: PRAGMA foreign_keys = {v}')
     r.queries = sol.queries
     r.solver_s = sol.time
     r.bounds = {'crash point': 'any statement boundary (symbolic k)', 'loops': 'each statement literal stands for all its executions (a loop body inside the bracket stays inside)'}
